@@ -5,6 +5,16 @@ HERE = os.path.dirname(os.path.dirname(os.path.abspath(__file__)))
 ALL = ['C%02d' % i for i in range(1, 21)]
 
 CLAIMED = {
+ 'C19': dict(
+    level='model_checking',
+    text='Using.tla holds the format scanner and the rendering of a value in a field on exact decimal digit sequences (rounding with '
+         'ties either way, carries, grouping, sign positions, % overflow mark) as sets of admissible texts; TLC enumerates every format '
+         'string up to the length bound with scanner invariants (and longer ones by simulation); each unambiguous format is run with '
+         'boundary value tuples through compiler+VM, values are read from the operand stack as exact expansions, and Trace_Using.tla '
+         'matches the terminal text field by field.',
+    note='Trusted: TLC, the tick observer, decimal.Decimal(float) for the exact expansion of a binary float; formats outside the field grammar are [amb].',
+    technique='TLA+ scanner + digit-sequence rendering, TLC exhaustive format enumeration, trace validation of real runs',
+    design='6 C19'),
  'C15': dict(
     level='model_checking',
     text='Data.tla holds the DATA tokenizer as a character automaton and the READ/RESTORE cursor machine with conversion rules; TLC '
